@@ -209,7 +209,6 @@ return_jobs_done:
                  */
                 if (n_ret_jobs != 0) {
                         state->earliest_job = -1; /* becomes empty */
-                        state->next_job = 0;
                 } else {
                         return FLUSH_BURST(state, n_jobs, jobs);
                 }
@@ -268,10 +267,8 @@ FLUSH_BURST(IMB_MGR *state, const uint32_t max_jobs, IMB_JOB **jobs)
                 ADV_JOBS(&state->earliest_job);
         }
 
-        if (state->earliest_job == state->next_job) {
+        if (state->earliest_job == state->next_job)
                 state->earliest_job = -1; /* becomes empty */
-                state->next_job = 0;
-        }
 
         return n_ret_jobs;
 }
